@@ -301,6 +301,9 @@ func (dec *xmlReader) BigInteger(tag int) (*big.Int, error) {
 	if err != nil {
 		return nil, err
 	}
+	if len(bytes) == 0 {
+		return nil, Errorf("Empty big integer for tag %s", TagString(tag))
+	}
 	return bytesToBigInt(bytes), dec.Next()
 }
 
